@@ -4,6 +4,7 @@
   repairs of D9); helper lemmas: Mtv/Lemmas/C12*.lean.
 -/
 import Mtv.Lemmas.C12Loader
+import Mtv.Session.Start
 namespace Mtv.Session
 
 /-! ## encodings -/
@@ -175,5 +176,39 @@ theorem fresh_or_torn_start (p : Path) (fs : FS) (host : Bytes) :
       rw [hp, hst]
       simp [Loader.new, hr]
     simp [newClient, this]
+
+/-- The same start for EVERY implementation of the `SessionLoader` interface, whichever way it says "nothing
+stored": a storage that returns a session gives a client that resumes with exactly it and runs no key exchange;
+`(nil, nil)` and a not-found error both give a blank client on the configured host that DOES run the key exchange
+(never an "encrypted" client without a key); any other error gives no client at all. For the file loader this is
+`newClient`. -/
+theorem start_on_any_storage (host : Bytes) :
+    (∀ s, ∃ c, startClient (.session s) host = .ok c ∧ c.encrypted = true ∧ c.runsKeyExchange = false ∧
+      c.authKey = s.key ∧ c.authKeyHash = s.hash ∧ c.serverSalt = s.salt ∧ c.addr = s.hostname) ∧
+    (∀ r, r = Loaded.nothing ∨ r = Loaded.notFound →
+      ∃ c, startClient r host = .ok c ∧ c.encrypted = false ∧ c.runsKeyExchange = true ∧ c.authKey = [] ∧ c.addr = host) ∧
+    (∀ e, startClient (.failed e) host = .err e) ∧
+    (∀ (l : Loader) (fs : FS) r, loadedOf (l.load fs).2 = some r → newClient l fs host = startClient r host) := by
+  refine ⟨fun s => ⟨_, rfl, rfl, rfl, rfl, rfl, rfl, rfl⟩, ?_, fun _ => rfl, ?_⟩
+  · intro r hr
+    rcases hr with rfl | rfl <;> exact ⟨_, rfl, rfl, rfl, rfl, rfl⟩
+  · intro l fs r h
+    unfold newClient
+    cases hl : (l.load fs).2 with
+    | ok s => rw [hl] at h; simp [loadedOf] at h; subst h; rfl
+    | err e =>
+      rw [hl] at h
+      by_cases he : e = "notfound"
+      · subst he; simp [loadedOf] at h; subst h; rfl
+      · have : loadedOf (.err e) = some (.failed e) := by
+          unfold loadedOf
+          split <;> simp_all
+        rw [this] at h
+        simp at h
+        subst h
+        simp only [startClient]
+    | panic p => rw [hl] at h; simp [loadedOf] at h
+
+example : startClient .nothing [0x68] = .ok (blankClient [0x68]) ∧ (blankClient [0x68]).runsKeyExchange = true := by decide
 
 end Mtv.Session
